@@ -6,7 +6,7 @@ from common import *
 PKG_REL = 'internal/ebnf/parser'
 PKG = MODULE + '/' + PKG_REL
 HDIR = os.path.join(HARNESS, PKG_REL)
-INIT = [PKG, MODULE + '/internal/verif', MODULE + '/internal/ebnf/lexer', 'github.com/moorara/algo/lexer', 'github.com/moorara/algo/list',
+INIT = [PKG, MODULE + '/internal/verif', MODULE + '/internal/ebnf/lexer', 'github.com/moorara/algo/lexer/input', 'github.com/moorara/algo/lexer', 'github.com/moorara/algo/list',
         'github.com/moorara/algo/grammar', 'github.com/moorara/algo/parser', 'io']
 OPAQUE = ['github.com/moorara/algo/grammar.NewCFG', 'github.com/moorara/algo/parser/lr.NewPrecedenceHandles',
           'github.com/moorara/algo/parser/lr.PrecedenceHandleForTerminal', 'github.com/moorara/algo/parser/lr.PrecedenceHandleForProduction']
